@@ -4,6 +4,7 @@ simnet (reactive origin echoing the request path)."""
 from __future__ import annotations
 
 import copy
+import weakref
 
 from simkit import harness as H
 from simkit import sched as S
@@ -91,6 +92,8 @@ def gen(rng):
                                        {"k": "resp", "status": 200, "body": "", "autobody": False}, {"k": "resp", "status": 204}])]
     if not cfg["preload"] and rng.random() < 0.35:
         cfg["read_style"] = rng.choice(["stream_only", "iter_only", "read_only"])
+    if rng.random() < 0.2:
+        cfg["release_conn"] = False  # the caller says it will give the connection back itself -- and does, after taking the body
     return sc
 
 
@@ -171,6 +174,16 @@ def run(sc: dict) -> Result:
         tolerated = [0]
         empties = [sum(1 for ex in sc.get("exchanges") or [] if ex.get("status") == 204 or (ex.get("status") == 200 and ex.get("body") == ""))]
         qid = id(pool.pool)
+        pref = weakref.ref(pool)
+
+        def on_enter(q, block):
+            # is the queue this caller is about to wait on still the pool's?  (close() swaps it out; the unchanged code cannot
+            # call get() on the old object once the swap has happened, because it reads self.pool in the very same expression)
+            p = pref()
+            if block:
+                sched.trace.append((sched.current_task(), "get_enter", bool(p is None or p.pool is not q), None))
+
+        pool.pool.on_enter = on_enter
 
         def make(task):
             def body():
@@ -184,7 +197,8 @@ def run(sc: dict) -> Result:
                         out.append(("close", None))
                         continue
                     try:
-                        r = pool.urlopen("GET", op["path"], preload_content=cfg["preload"], pool_timeout=cfg["pool_timeout"])
+                        rc_kw = {"release_conn": False} if cfg.get("release_conn") is False else {}
+                        r = pool.urlopen("GET", op["path"], preload_content=cfg["preload"], pool_timeout=cfg["pool_timeout"], **rc_kw)
                         if "partial" in op and not cfg["preload"]:
                             data = r.read(op["partial"]) if op["partial"] else b""
                             st = r.status
@@ -204,6 +218,8 @@ def run(sc: dict) -> Result:
                             data = r.read()
                         else:
                             data = r.read()
+                            r.release_conn()
+                        if rc_kw:
                             r.release_conn()
                         out.append(("ok", op["path"], r.status, data))
                     except (S.SimDeadlock, S.TaskAbort, W.StepLimit, W.SimHang) as e:
@@ -324,12 +340,21 @@ def run(sc: dict) -> Result:
             res.probes["systematic_single_preemption"] += 1
         # a task that is (or gets) parked in get() on the queue that close() swapped out can never be served from it
         seen_close = False
+        stale = {}
+        stale_victims = []
         for x in sched.trace:
             if x[1] == "close_begin":
                 seen_close = True
+            elif x[1] == "get_enter":
+                stale[x[0]] = x[2]
             elif seen_close and x[1] == "block" and x[2] == "notempty":
-                close_info["victims"].append(x[0])
+                (stale_victims if stale.get(x[0]) else close_info["victims"]).append(x[0])
         res.info["victims"] = sorted(set(close_info["victims"]))
+        # tasks that *called* get() on a queue close() had already swapped out: not the recorded finding (that one is about callers
+        # already inside get() when close() begins)
+        res.info["stale_victims"] = sorted(set(stale_victims))
+        if stale_victims:
+            res.probes["get_called_on_swapped_out_queue"] += 1
         res.info["switch_log"] = list(sched.switch_log)
         res.faults.update(w.faults_fired)
         res.faults["preemptions"] += sched.preemptions
@@ -389,6 +414,10 @@ def shrinks(sc):
         c = copy.deepcopy(sc)
         del c["config"]["read_style"]
         yield c
+    if "release_conn" in sc["config"]:
+        c = copy.deepcopy(sc)
+        del c["config"]["release_conn"]
+        yield c
     for fld, simple in (("maxsize", 1), ("preload", True)):
         if sc["config"][fld] != simple:
             c = copy.deepcopy(sc)
@@ -397,7 +426,7 @@ def shrinks(sc):
 
 
 def _trig_close_waiter(sc, res):
-    return any(o["op"] == "close" for t in sc["tasks"] for o in t["ops"]) and bool(res.info.get("victims"))
+    return any(o["op"] == "close" for t in sc["tasks"] for o in t["ops"]) and bool(res.info.get("victims")) and not res.info.get("stale_victims")
 
 
 def _neut_close_waiter(sc):
